@@ -155,6 +155,14 @@ func c13Sizes(rng *rand.Rand, k int) (sizes []int, desc string) {
 		sizes = []int{}
 		desc = "no-messages"
 	}
+	if k%4 == 2 {
+		// the stream ENDS with messages of size 0 (half of which are written as messages that marshal to zero
+		// bytes: nothing but a one-byte length prefix at the very end of the - possibly compressed - stream)
+		for i := 0; i < 1+rng.Intn(3); i++ {
+			sizes = append(sizes, 0)
+		}
+		desc += "+trailing-empty"
+	}
 	return
 }
 
